@@ -227,9 +227,20 @@ def c15_fire(ctx, carrier, step_ft, kw, wind, rlo, rhi):
                 ctx.check('mach_row_within_one_step', (r.mach <= mach[i - 1] + 1e-12) & (r.mach >= mach[i] - 1e-12))
     # the events-only request (no range step, no time step, extra data) through the engine's own entry point: exactly the event rows
     ev_rows = calc._calc.trajectory(shot, U.Foot(R), U.Foot(0.0), True)
-    ev = [r for r in ev_rows if r.flag & (TF.ZERO | TF.MACH)]
-    ctx.check('each_event_once', sum(1 for r in ev if r.flag & TF.ZERO_UP) == n_up and sum(1 for r in ev if r.flag & TF.ZERO_DOWN) == n_down
-              and sum(1 for r in ev if r.flag & TF.MACH) == n_mach, info={'request': 'events only (record step 0)', 'rows': len(ev_rows), 'event_rows': len(ev)})
+    # (the two requests overshoot the range by different amounts: only events that happen within the requested range are compared;
+    #  an event is 'within' when the integration point that carries it starts at or before the range)
+    eps = 1e-6 * (1 + R)
+
+    def want(limit):
+        ins = [i for i in ([up_at] if up_at is not None else []) + ([down_at] if down_at is not None else []) + mach_at if spy[i]['p'].x <= limit]
+        return (sum(1 for i in ins if i == up_at), sum(1 for i in ins if i == down_at), sum(1 for i in ins if i in mach_at))
+
+    def seen(limit):
+        ev = [r for r in ev_rows if (r.flag & (TF.ZERO | TF.MACH)) and (r.distance >> U.Foot) <= limit]
+        return (sum(1 for r in ev if r.flag & TF.ZERO_UP), sum(1 for r in ev if r.flag & TF.ZERO_DOWN), sum(1 for r in ev if r.flag & TF.MACH))
+    lo_w, hi_w, lo_s, hi_s = want(R - eps), want(R + eps), seen(R - eps), seen(R + eps)
+    ctx.check('each_event_once', all(hi_s[k] >= lo_w[k] and lo_s[k] <= hi_w[k] for k in range(3)),
+              info={'request': 'events only (record step 0)', 'rows': len(ev_rows), 'want_within_range': lo_w, 'seen_within_range': hi_s})
     # accessor
     try:
         z = res.zeros()
